@@ -72,6 +72,49 @@ def routing(ctx, what, part):
             # attrs dict and attribute syntax are two views of the same store
             o.attrs[name] = w
             oks.append(getattr(o, name) is w)
+    elif part == 'values':
+        # values of any type, falsy ones included, are stored, read and deleted the same way
+        np = ctx.np
+        pool = [0, 0.0, '', [], {}, (), False, None, 'abc', np.array([1, 2]), np.array([]), np.array(0), [0], ctx.int('ival')]
+        for k, val in enumerate(pool):
+            name = 'units'
+            o, dims, labels = fresh()
+            setattr(o, name, val)
+            oks.append(name in o.attrs and o.attrs[name] is val)
+            oks.append(getattr(o, name) is val)
+            r = ctx.call(lambda: delattr(o, name))
+            ok = r[0] == 'ok' and name not in o.attrs
+            if ok is False:
+                notes.append(('delete-failed', repr(val)[:20]))
+            oks.append(ok)
+            oks.append(ctx.call(lambda: getattr(o, name)) == ('exc', 'AttributeError'))
+    elif part == 'kwset':
+        # the keyword form of attribute setting (Axis.set / set_axis(**kwargs)) follows the same routing rules
+        def kwset(o, **kw):
+            if what == 'axis':
+                o.set(**kw)
+                return o
+            o.set_axis(axis='x', **kw)
+            return o.axes['x']
+        o, dims, labels = fresh()
+        ax = kwset(o, units=v, long_name='L')
+        oks.append(ax.attrs.get('units') is v and ax.attrs.get('long_name') == 'L' and ax.units is v)
+        axis_members = [n for n in _members(da.Axis) if not n.startswith('_')]
+        for name in ('tol', 'weights'):
+            if name not in axis_members:
+                continue
+            o, dims, labels = fresh()
+            ax = kwset(o, **{name: w})
+            inattrs = name in ax.attrs
+            if inattrs:
+                notes.append(('kwset-entered-attrs', name))
+            oks.append(not inattrs)
+            oks.append(getattr(ax, name) is w)
+        for name in ('_foo', '_units'):
+            o, dims, labels = fresh()
+            ax = kwset(o, **{name: w})
+            oks.append(name not in ax.attrs)
+            oks.append(getattr(ax, name) is w)
     elif part == 'dims':
         for what_dim in ('x', 'y'):
             o, dims, labels = fresh()
@@ -269,7 +312,7 @@ def templates():
     def add(name, fn, tier='quick', cost=1.0, **params):
         ts.append({'name': name, 'fn': fn, 'params': params, 'tier': tier, 'cost': cost})
     for what in ('dimarray', 'dataset', 'axis'):
-        for part in ('free', 'dims', 'private', 'mem0', 'mem1', 'mem2', 'mem3'):
+        for part in ('free', 'values', 'kwset', 'dims', 'private', 'mem0', 'mem1', 'mem2', 'mem3'):
             if part == 'dims' and what == 'axis':
                 continue
             add('routing-%s-%s' % (what, part), 'routing', cost=1, what=what, part=part)
